@@ -309,6 +309,41 @@ def check_enum(case):
             # default value is a declared enumerator
             if not isinstance(vsc.enum_t(E).get_val(), E):
                 bad("default", None, vsc.enum_t(E).get_val())
+        elif path in ("ctor_assign", "ctor_assign_derived"):
+            # the field is declared and then written INSIDE the owner's constructor (in the class itself or in the
+            # __init__ of a derived class), before the object's model exists; read after construction and after later writes
+            first = seq[0]
+
+            @vsc.randobj
+            class HC(object):
+                def __init__(self, v=None):
+                    self.e = vsc.enum_t(E)
+                    self.r = vsc.rand_enum_t(E)
+                    self.a = vsc.attr(vsc.enum_t(E))
+                    if v is not None:
+                        self.e = v
+                        self.r = v
+                        self.a = v
+            if path == "ctor_assign":
+                o = HC(first)
+            else:
+                @vsc.randobj
+                class HD(HC):
+                    def __init__(self, v):
+                        super().__init__()
+                        self.e = v
+                        self.r = v
+                        self.a = v
+                o = HD(first)
+            for nm in ("e", "r", "a"):
+                got = getattr(o, nm)
+                if got is not first:
+                    bad("attr %s after a write in the constructor" % nm, first, got)
+            for e in seq[1:]:
+                o.e = e
+                o.r = e
+                if o.e is not e or o.r is not e:
+                    bad("attr after construction", e, (o.e, o.r))
         else:
             @vsc.randobj
             class HL(object):
@@ -345,7 +380,7 @@ def check_enum(case):
 @hyp.composite
 def enum_cases(d):
     return {"sub": "enum", "enum": d.choice(["int", "plain"]),
-            "path": d.choice(["set_val", "attr", "val", "l_append", "l_extend", "l_assign", "l_setitem"]),
+            "path": d.choice(["set_val", "attr", "val", "l_append", "l_extend", "l_assign", "l_setitem", "ctor_assign", "ctor_assign_derived"]),
             "seq": [d.randint(0, 4) for _ in range(d.randint(1, 5))]}
 
 
